@@ -1,4 +1,446 @@
 // Verification harness module included at the end of daemon/src/rpki.rs under
-// cfg(all(test, osrg_rustybgp_verif)).  Sub-modules are enabled per property with
-// --cfg verif_cXX (development) or --cfg verif_all (what ./check uses by default).
+// cfg(all(test, osrg_rustybgp_verif)).  C13: drives the REAL `RpkiClient::serve_inner` over
+// `tokio::io::duplex` with scripted RTR byte streams delivered in arbitrary fragments and
+// observes the installed ROAs (`TableManager::collect_roa`), `RpkiState` and the queries the
+// client wrote.  Always compiled (not under a verif_cXX sub-cfg).
+//
+//   case ::= (case (streams (SID CACHE (PDU*))*) (steps STEP*)) | (case-tcp N)
+//   PDU  ::= (cr V SESS) | (p4 V FLAGS LEN ML x<8hex> ASN) | (p6 V FLAGS LEN ML x<32hex> ASN)
+//          | (eod V SESS SERIAL) | (notify V SESS SERIAL) | (creset V) | (err V CODE x<body>)
+//          | (raw V TYPE SESS x<body>) | (junk x<bytes>)
+//   STEP ::= (start SID) | (send SID N) | (soft SID) | (end SID eof|cancel) | (snap)
+//   obs  ::= (obs SNAP*)
+//   SNAP ::= (snap (roas (CACHE NET ML ASN)*) (sess (SID SERIAL SESSID (Q*))*) (done SID*))
+//   Q    ::= reset | (serial SESS SERIAL)
 #![allow(dead_code, unused_imports)]
+
+use super::*;
+use std::collections::BTreeMap;
+use std::future::Future;
+use std::net::Ipv4Addr;
+use std::pin::Pin;
+use std::sync::atomic::AtomicBool;
+use std::task::{Context, Poll, Wake, Waker};
+
+use futures::FutureExt;
+use tokio::io::{AsyncReadExt, AsyncWriteExt};
+
+#[path = "/verif/harness/common/sexp.rs"]
+mod sexp;
+use sexp::Term;
+
+use crate::table_manager::TableManager;
+
+struct Flag(AtomicBool);
+impl Wake for Flag {
+    fn wake(self: Arc<Self>) {
+        self.0.store(true, Ordering::SeqCst);
+    }
+}
+
+struct Sess {
+    cache: u8,
+    stream: Vec<u8>,
+    pos: usize,
+    fut: Option<Pin<Box<dyn Future<Output = Result<(), Error>>>>>,
+    server: Option<tokio::io::DuplexStream>,
+    cancel: CancellationToken,
+    soft: Arc<Notify>,
+    state: Arc<RpkiState>,
+    started: bool,
+    done: bool,
+    from_client: Vec<u8>,
+}
+
+impl Sess {
+    /// Poll the client until it is blocked with no wake-up pending.
+    fn drive(&mut self) {
+        let Some(fut) = self.fut.as_mut() else { return };
+        if self.done {
+            return;
+        }
+        let flag = Arc::new(Flag(AtomicBool::new(false)));
+        let waker = Waker::from(flag.clone());
+        let mut cx = Context::from_waker(&waker);
+        for _ in 0..100_000 {
+            flag.0.store(false, Ordering::SeqCst);
+            match fut.as_mut().poll(&mut cx) {
+                Poll::Ready(_) => {
+                    self.done = true;
+                    break;
+                }
+                Poll::Pending => {
+                    if !flag.0.load(Ordering::SeqCst) {
+                        break;
+                    }
+                }
+            }
+        }
+        self.drain();
+    }
+    /// Collect what the client has written so far.
+    fn drain(&mut self) {
+        if let Some(s) = self.server.as_mut() {
+            let mut buf = [0u8; 4096];
+            loop {
+                match s.read(&mut buf).now_or_never() {
+                    Some(Ok(n)) if n > 0 => self.from_client.extend_from_slice(&buf[..n]),
+                    _ => break,
+                }
+            }
+        }
+    }
+    fn queries(&self) -> Vec<Term> {
+        let b = &self.from_client;
+        let mut out = Vec::new();
+        let mut i = 0;
+        while i + 8 <= b.len() {
+            let len = u32::from_be_bytes([b[i + 4], b[i + 5], b[i + 6], b[i + 7]]) as usize;
+            if len < 8 || i + len > b.len() {
+                out.push(Term::atom("garbled"));
+                break;
+            }
+            match (b[i + 1], len) {
+                (2, 8) => out.push(Term::atom("reset")),
+                (1, 12) => out.push(Term::tag(
+                    "serial",
+                    vec![
+                        Term::nat(u16::from_be_bytes([b[i + 2], b[i + 3]])),
+                        Term::nat(u32::from_be_bytes([b[i + 8], b[i + 9], b[i + 10], b[i + 11]])),
+                    ],
+                )),
+                (t, _) => out.push(Term::tag("other", vec![Term::nat(t)])),
+            }
+            i += len;
+        }
+        out
+    }
+}
+
+fn u(t: &Term, max: u64) -> Option<u64> {
+    let v = t.as_u64()?;
+    if v <= max { Some(v) } else { None }
+}
+
+fn header(out: &mut Vec<u8>, ver: u64, ty: u64, sess: u64, len: usize) {
+    out.push(ver as u8);
+    out.push(ty as u8);
+    out.extend_from_slice(&(sess as u16).to_be_bytes());
+    out.extend_from_slice(&(len as u32).to_be_bytes());
+}
+
+fn encode_pdu(t: &Term, out: &mut Vec<u8>) -> Option<()> {
+    let l = t.as_list()?;
+    let h = l.first()?.as_atom()?;
+    let a = &l[1..];
+    match (h, a.len()) {
+        ("cr", 2) => header(out, u(&a[0], 255)?, 3, u(&a[1], 65535)?, 8),
+        ("p4", 6) | ("p6", 6) => {
+            let addr = a[4].as_bytes()?;
+            let (ty, n) = if h == "p4" { (4, 4) } else { (6, 16) };
+            if addr.len() != n {
+                return None;
+            }
+            let (flags, len, ml, asn) = (u(&a[1], 255)?, u(&a[2], 255)?, u(&a[3], 255)?, u(&a[5], 4294967295)?);
+            header(out, u(&a[0], 255)?, ty, 0, 16 + n);
+            out.extend_from_slice(&[flags as u8, len as u8, ml as u8, 0]);
+            out.extend_from_slice(&addr);
+            out.extend_from_slice(&(asn as u32).to_be_bytes());
+        }
+        ("eod", 3) => {
+            let v = u(&a[0], 255)?;
+            let (sess, serial) = (u(&a[1], 65535)?, u(&a[2], 4294967295)?);
+            if v >= 1 {
+                header(out, v, 7, sess, 24);
+                out.extend_from_slice(&(serial as u32).to_be_bytes());
+                out.extend_from_slice(&3600u32.to_be_bytes());
+                out.extend_from_slice(&600u32.to_be_bytes());
+                out.extend_from_slice(&7200u32.to_be_bytes());
+            } else {
+                header(out, v, 7, sess, 12);
+                out.extend_from_slice(&(serial as u32).to_be_bytes());
+            }
+        }
+        ("notify", 3) => {
+            header(out, u(&a[0], 255)?, 0, u(&a[1], 65535)?, 12);
+            out.extend_from_slice(&(u(&a[2], 4294967295)? as u32).to_be_bytes());
+        }
+        ("creset", 1) => header(out, u(&a[0], 255)?, 8, 0, 8),
+        ("err", 3) => {
+            let body = a[2].as_bytes()?;
+            header(out, u(&a[0], 255)?, 10, u(&a[1], 65535)?, 8 + body.len());
+            out.extend_from_slice(&body);
+        }
+        ("raw", 4) => {
+            let body = a[3].as_bytes()?;
+            header(out, u(&a[0], 255)?, u(&a[1], 255)?, u(&a[2], 65535)?, 8 + body.len());
+            out.extend_from_slice(&body);
+        }
+        ("junk", 1) => out.extend_from_slice(&a[0].as_bytes()?),
+        _ => return None,
+    }
+    Some(())
+}
+
+fn net_term(n: &packet::IpNet) -> Term {
+    match n {
+        packet::IpNet::V4(n) => Term::list(vec![Term::nat(4u8), Term::bytes(&n.addr.octets()), Term::nat(n.mask)]),
+        packet::IpNet::V6(n) => Term::list(vec![Term::nat(6u8), Term::bytes(&n.addr.octets()), Term::nat(n.mask)]),
+    }
+}
+
+fn cache_of(a: &IpAddr) -> u64 {
+    match a {
+        IpAddr::V4(a) => a.octets()[3] as u64,
+        _ => 999,
+    }
+}
+
+fn snapshot(tables: &TableHandle, sess: &BTreeMap<u64, Sess>) -> Term {
+    let mut roas = Vec::new();
+    for fam in [packet::Family::IPV4, packet::Family::IPV6] {
+        for (net, roa) in tables.collect_roa(fam) {
+            roas.push(Term::list(vec![
+                Term::nat(cache_of(&roa.source)),
+                net_term(&net),
+                Term::nat(roa.max_length),
+                Term::nat(roa.as_number),
+            ]));
+        }
+    }
+    let mut ss = Vec::new();
+    let mut done = Vec::new();
+    for (sid, s) in sess.iter() {
+        if !s.started {
+            continue;
+        }
+        ss.push(Term::list(vec![
+            Term::nat(*sid),
+            Term::nat(s.state.serial.load(Ordering::Relaxed)),
+            Term::nat(s.state.session_id.load(Ordering::Relaxed)),
+            Term::list(s.queries()),
+        ]));
+        if s.done {
+            done.push(Term::nat(*sid));
+        }
+    }
+    Term::tag("snap", vec![Term::tag("roas", roas), Term::tag("sess", ss), Term::tag("done", done)])
+}
+
+fn run_case(line: &str) -> String {
+    let bad = || "(bad-case)".to_string();
+    let Some(t) = Term::parse(line) else { return bad() };
+    if let Some(a) = t.tagged("case-tcp") {
+        if a.len() != 1 {
+            return bad();
+        }
+        return match u(&a[0], 64) {
+            Some(n) => run_tcp(n),
+            None => bad(),
+        };
+    }
+    let Some(a) = t.tagged("case") else { return bad() };
+    if a.len() != 2 {
+        return bad();
+    }
+    let (Some(streams), Some(steps)) = (a[0].tagged("streams"), a[1].tagged("steps")) else { return bad() };
+    let tables: TableHandle = Arc::new(TableManager::new(1));
+    let mut sess: BTreeMap<u64, Sess> = BTreeMap::new();
+    for s in streams {
+        let Some(l) = s.as_list() else { return bad() };
+        if l.len() != 3 {
+            return bad();
+        }
+        let (Some(sid), Some(cache), Some(pdus)) = (u(&l[0], 250), u(&l[1], 250), l[2].as_list()) else { return bad() };
+        if sess.contains_key(&sid) {
+            return bad();
+        }
+        let mut stream = Vec::new();
+        for p in pdus {
+            if encode_pdu(p, &mut stream).is_none() {
+                return bad();
+            }
+        }
+        sess.insert(
+            sid,
+            Sess {
+                cache: cache as u8,
+                stream,
+                pos: 0,
+                fut: None,
+                server: None,
+                cancel: CancellationToken::new(),
+                soft: Arc::new(Notify::new()),
+                state: Arc::new(RpkiState::default()),
+                started: false,
+                done: false,
+                from_client: Vec::new(),
+            },
+        );
+    }
+    // validate the steps first so that an ill-formed case has no partial effect
+    enum Step {
+        Start(u64),
+        Send(u64, usize),
+        Soft(u64),
+        End(u64, bool),
+        Snap,
+    }
+    let mut plan = Vec::new();
+    let mut started = std::collections::BTreeSet::new();
+    for st in steps {
+        if st.as_list().map(|l| l.len() == 1 && l[0].as_atom() == Some("snap")) == Some(true) {
+            plan.push(Step::Snap);
+            continue;
+        }
+        let Some(l) = st.as_list() else { return bad() };
+        let Some(h) = l.first().and_then(|h| h.as_atom()) else { return bad() };
+        let a = &l[1..];
+        if a.is_empty() {
+            return bad();
+        }
+        let Some(sid) = u(&a[0], 250) else { return bad() };
+        if !sess.contains_key(&sid) {
+            return bad();
+        }
+        match (h, a.len()) {
+            ("start", 1) => {
+                if !started.insert(sid) {
+                    return bad();
+                }
+                plan.push(Step::Start(sid));
+            }
+            ("send", 2) if started.contains(&sid) => {
+                let Some(n) = u(&a[1], 1 << 20) else { return bad() };
+                plan.push(Step::Send(sid, n as usize));
+            }
+            ("soft", 1) if started.contains(&sid) => plan.push(Step::Soft(sid)),
+            ("end", 2) if started.contains(&sid) => match a[1].as_atom() {
+                Some("eof") => plan.push(Step::End(sid, true)),
+                Some("cancel") => plan.push(Step::End(sid, false)),
+                _ => return bad(),
+            },
+            _ => return bad(),
+        }
+    }
+    let mut obs = vec![Term::atom("obs")];
+    for st in plan {
+        match st {
+            Step::Start(sid) => {
+                let s = sess.get_mut(&sid).unwrap();
+                let (client_io, server_io) = tokio::io::duplex(1 << 22);
+                let remote_addr = Arc::new(IpAddr::V4(Ipv4Addr::new(192, 0, 2, s.cache)));
+                let framed = Framed::new(client_io, rpki::RtrCodec::new());
+                s.fut = Some(Box::pin(RpkiClient::serve_inner(
+                    framed,
+                    remote_addr,
+                    s.cancel.clone(),
+                    s.soft.clone(),
+                    s.state.clone(),
+                    tables.clone(),
+                )));
+                s.server = Some(server_io);
+                s.started = true;
+                s.drive();
+            }
+            Step::Send(sid, n) => {
+                let s = sess.get_mut(&sid).unwrap();
+                let end = (s.pos + n).min(s.stream.len());
+                let chunk = s.stream[s.pos..end].to_vec();
+                s.pos = end;
+                if let Some(srv) = s.server.as_mut() {
+                    let _ = srv.write_all(&chunk).now_or_never();
+                }
+                s.drive();
+            }
+            Step::Soft(sid) => {
+                let s = sess.get_mut(&sid).unwrap();
+                s.soft.notify_one();
+                s.drive();
+            }
+            Step::End(sid, eof) => {
+                let s = sess.get_mut(&sid).unwrap();
+                if eof {
+                    s.drain();
+                    s.server = None;
+                } else {
+                    s.cancel.cancel();
+                }
+                s.drive();
+            }
+            Step::Snap => obs.push(snapshot(&tables, &sess)),
+        }
+    }
+    Term::list(obs).to_string()
+}
+
+/// `try_connect` over a loopback TCP socket: install one VRP, cancel, report whether the
+/// cache's VRPs were removed.  Repeated `n` times (the defect it guards against was a race).
+fn run_tcp(n: u64) -> String {
+    let rt = tokio::runtime::Builder::new_current_thread().enable_all().build().unwrap();
+    let mut res = vec![Term::atom("tcp")];
+    for _ in 0..n {
+        let r = rt.block_on(async {
+            use tokio::time::{sleep, timeout, Duration};
+            let listener = tokio::net::TcpListener::bind("127.0.0.1:0").await.ok()?;
+            let addr = listener.local_addr().ok()?;
+            let tables: TableHandle = Arc::new(TableManager::new(1));
+            let cancel = CancellationToken::new();
+            RpkiClient::try_connect(
+                addr,
+                cancel.clone(),
+                Arc::new(Notify::new()),
+                Arc::new(RpkiState::default()),
+                tables.clone(),
+            );
+            let (mut sock, _) = timeout(Duration::from_secs(5), listener.accept()).await.ok()?.ok()?;
+            let mut q = [0u8; 8];
+            timeout(Duration::from_secs(5), sock.read_exact(&mut q)).await.ok()?.ok()?;
+            let mut bytes = Vec::new();
+            for p in ["(cr 1 7)", "(p4 1 1 8 24 x0a000000 65001)", "(eod 1 7 5)"] {
+                encode_pdu(&Term::parse(p)?, &mut bytes)?;
+            }
+            sock.write_all(&bytes).await.ok()?;
+            let mut installed = false;
+            for _ in 0..1000 {
+                if tables.collect_roa(packet::Family::IPV4).len() == 1 {
+                    installed = true;
+                    break;
+                }
+                sleep(Duration::from_millis(2)).await;
+            }
+            if !installed {
+                return Some("not-installed");
+            }
+            cancel.cancel();
+            for _ in 0..250 {
+                if tables.collect_roa(packet::Family::IPV4).is_empty() {
+                    return Some("cleared");
+                }
+                sleep(Duration::from_millis(2)).await;
+            }
+            Some("stale")
+        });
+        res.push(Term::atom(r.unwrap_or("io-failed")));
+    }
+    Term::list(res).to_string()
+}
+
+#[test]
+fn verif_main() {
+    let (Ok(prop), Ok(inp), Ok(out)) = (
+        std::env::var("VERIF_PROP"),
+        std::env::var("VERIF_IN"),
+        std::env::var("VERIF_OUT"),
+    ) else {
+        return; // not invoked by /verif/check
+    };
+    if prop != "C13" {
+        return;
+    }
+    std::panic::set_hook(Box::new(|_| {}));
+    sexp::run_lines(&inp, &out, |l| {
+        let l = l.to_string();
+        std::panic::catch_unwind(move || run_case(&l)).unwrap_or_else(|_| "(panic)".into())
+    });
+}
